@@ -85,9 +85,10 @@ func (a *attackAnchors) resolveSpawns() []spawnSite {
 // tickSenderSummary: fn's body is one blocking select {send on the channel
 // given (parameter or the ticks cell), receive on a.stopch}; the send case
 // returns constant true, everything else constant false.
-func (a *attackAnchors) tickSenderSummary(fn *ssa.Function, call *ssa.Call) (sel *ssa.Select, ok bool) {
+func (a *attackAnchors) tickSenderSummary(fn *ssa.Function, call *ssa.Call) (sel *ssa.Select, sentIdx, stoppedIdx int, ok bool) {
+	sentIdx, stoppedIdx = -1, -1
 	if fn == nil || len(fn.Blocks) == 0 {
-		return nil, false
+		return nil, -1, -1, false
 	}
 	n := 0
 	eachInstr(fn, func(i ssa.Instruction) {
@@ -96,14 +97,20 @@ func (a *attackAnchors) tickSenderSummary(fn *ssa.Function, call *ssa.Call) (sel
 			n++
 		}
 	})
-	if n != 1 || fn.Signature.Results().Len() != 1 {
-		return nil, false
+	nres := fn.Signature.Results().Len()
+	if n != 1 || nres < 1 || nres > 2 {
+		return nil, -1, -1, false
 	}
-	if b, isB := fn.Signature.Results().At(0).Type().Underlying().(*types.Basic); !isB || b.Kind() != types.Bool {
-		return nil, false
+	for k := 0; k < nres; k++ {
+		if b, isB := fn.Signature.Results().At(k).Type().Underlying().(*types.Basic); !isB || b.Kind() != types.Bool {
+			return nil, -1, -1, false
+		}
 	}
-	sendIdx := -1
+	sendCase, stopCase := -1, -1
 	for k, st := range sel.States {
+		if st.Dir == types.RecvOnly && isStopchLoad(st.Chan) {
+			stopCase = k
+		}
 		if st.Dir != types.SendOnly {
 			continue
 		}
@@ -111,38 +118,58 @@ func (a *attackAnchors) tickSenderSummary(fn *ssa.Function, call *ssa.Call) (sel
 		if p, isP := st.Chan.(*ssa.Parameter); isP {
 			for pi, fp := range fn.Params {
 				if fp == p && pi < len(call.Call.Args) && valueOrCell(call.Call.Args[pi]) == a.Ticks {
-					sendIdx = k
+					sendCase = k
 				}
 			}
 		} else if valueOrCell(st.Chan) == a.Ticks {
-			sendIdx = k
+			sendCase = k
 		}
 	}
-	if sendIdx < 0 {
-		return nil, false
+	if sendCase < 0 {
+		return nil, -1, -1, false
 	}
-	sentBlk := selectCaseBlock(sel, sendIdx)
+	sentBlk := selectCaseBlock(sel, sendCase)
 	if sentBlk == nil {
-		return nil, false
+		return nil, -1, -1, false
 	}
-	// every return reachable from the sent block is `true`; every other return is `false`
 	sentSet := exploreBlock(sentBlk, nil)
-	okAll := true
-	eachInstr(fn, func(i ssa.Instruction) {
-		r, isR := i.(*ssa.Return)
-		if !isR {
-			return
+	var stopSet map[ssa.Instruction]bool
+	if stopCase >= 0 {
+		if sb := selectCaseBlock(sel, stopCase); sb != nil {
+			stopSet = exploreBlock(sb, nil)
 		}
-		b, isC := constBool(r.Results[0])
-		if !isC {
-			okAll = false
-			return
+	}
+	// a result position reports "sent" when it is constant true exactly on the returns of the send
+	// case, and "stopped" when it is constant true exactly on the returns of the stop case
+	for k := 0; k < nres; k++ {
+		isSent, isStopped, allConst := true, stopSet != nil, true
+		eachInstr(fn, func(i ssa.Instruction) {
+			r, isR := i.(*ssa.Return)
+			if !isR {
+				return
+			}
+			b, isC := constBool(r.Results[k])
+			if !isC {
+				allConst = false
+				return
+			}
+			if sentSet[i] != b {
+				isSent = false
+			}
+			if stopSet != nil && stopSet[i] != b {
+				isStopped = false
+			}
+		})
+		if !allConst {
+			return nil, -1, -1, false
 		}
-		if sentSet[i] != b {
-			okAll = false
+		if isSent && sentIdx < 0 {
+			sentIdx = k
+		} else if isStopped && stoppedIdx < 0 {
+			stoppedIdx = k
 		}
-	})
-	return sel, okAll
+	}
+	return sel, sentIdx, stoppedIdx, sentIdx >= 0
 }
 
 func (a *attackAnchors) resolveOffers() []tickOffer {
@@ -175,7 +202,7 @@ func (a *attackAnchors) resolveOffers() []tickOffer {
 			if callee == nil || callee.Pkg != fn.Pkg || callee == a.Worker || callee == a.Hit {
 				return
 			}
-			sel, ok := a.tickSenderSummary(callee, x)
+			sel, sentIdx, stoppedIdx, ok := a.tickSenderSummary(callee, x)
 			if !ok {
 				return
 			}
@@ -185,8 +212,34 @@ func (a *attackAnchors) resolveOffers() []tickOffer {
 					o.HasStop = true
 				}
 			}
-			if t, f, _ := branchOn(x); t != nil {
-				o.Sent, o.Stopped = t, f
+			result := func(k int) ssa.Value {
+				if callee.Signature.Results().Len() == 1 {
+					return x
+				}
+				for _, r := range refs(x) {
+					if ex, isEx := r.(*ssa.Extract); isEx && ex.Index == k {
+						return ex
+					}
+				}
+				return nil
+			}
+			if v := result(sentIdx); v != nil {
+				if t, f, _ := branchOn(v); t != nil {
+					o.Sent = t
+					if callee.Signature.Results().Len() == 1 && sel.Blocking {
+						o.Stopped = f // a blocking send-or-stop helper: not sent means stopped
+					}
+				}
+			}
+			if stoppedIdx >= 0 {
+				if v := result(stoppedIdx); v != nil {
+					if t, _, _ := branchOn(v); t != nil {
+						o.Stopped = t
+					}
+				}
+			}
+			if o.Sent == nil {
+				return
 			}
 			out = append(out, o)
 		}
